@@ -34,7 +34,7 @@ CLAIM = dict(
          'For teneva as it is now: the skeleton + certificate of every function variant reachable from the 96 exported '
          'functions is regenerated from the source on every run, C09_api_clean re-checks it by vm_compute (all certificates '
          'valid, every exported summary within the exception table of Model/Heap.v: orthogonalize_left/right inplace=True, '
-         'info / cache, grid_prep_opt(s), core_stab, methods on self), and C09_teneva_no_mutation, C09_teneva_no_alias, '
+         'info / cache, grid_prep_opt(s), core_stab only in the variant where its threshold test v_max <= thr holds, methods on self), and C09_teneva_no_mutation, C09_teneva_no_alias, '
          'C09_teneva_separate_unchanged, C09_teneva_disjoint instantiate the theorems on it: no exported function changes an '
          'argument, and no object is reachable both from its result and from a non-exempt argument afterwards. Non-vacuity: '
          'the semantics has mutating / aliasing executions and the checker rejects those skeletons (C09_ex_*).',
@@ -55,7 +55,9 @@ CLAIM = dict(
          'size-1 operands and checked with np.shares_memory; and every recipe is re-run with its option / index / point '
          'arguments given as C-contiguous int64 / float64 ndarrays (so that asanyarray / ascontiguousarray / grid_prep_opt(s) '
          'are the identity), scalar options written out as arrays, batches reduced to a single point or a single row, the whole '
-         'call reduced to one dimension (d = 1), and boolean flags passed as 0 / 1, np.bool_ and None. Result objects that a function also stores into '
+         'call reduced to one dimension (d = 1), boolean flags passed as 0 / 1, np.bool_ and None, the optional arguments of two '
+         'recipes of a function supplied together, and core_stab swept over every binade 2^-6 .. 2^6 above and below its '
+         'threshold. Result objects that a function also stores into '
          'the info / cache dictionaries are covered by the exception (info / cache may reach them). Exported classes (ANOVA, '
          'ANOVA_func) and underscore helpers are analysed as callees only. Heap model: a view / slice / reshape of an array '
          'is the same object as its base (conservative: two disjoint slices of one buffer count as aliased).',
@@ -229,6 +231,52 @@ class Env:
         return self.arr(rs.randint(-4, 5, size=tuple(n)).astype(float))
 
 
+def _clone(x, memo=None):
+    """independent copy of a recipe argument that keeps dtype, memory layout (C / Fortran / strided) and the identity
+    relations between its parts; callables and numbers are shared"""
+    memo = {} if memo is None else memo
+    if id(x) in memo:
+        return memo[id(x)]
+    if isinstance(x, np.ndarray):
+        if x.dtype == object:
+            y = np.empty(x.shape, dtype=object)
+            memo[id(x)] = y
+            for idx in np.ndindex(x.shape):
+                y[idx] = _clone(x[idx], memo)
+            return y
+        if x.ndim == 0 or x.flags['C_CONTIGUOUS']:
+            y = x.copy(order='C')
+        elif x.flags['F_CONTIGUOUS']:
+            y = x.copy(order='F')
+        else:
+            big = np.empty(x.shape + (2,), dtype=x.dtype)
+            big[..., 0] = x
+            big[..., 1] = -7
+            y = big[..., 0]
+        memo[id(x)] = y
+        return y
+    if isinstance(x, list):
+        y = []
+        memo[id(x)] = y
+        y.extend(_clone(v, memo) for v in x)
+        return y
+    if isinstance(x, tuple):
+        return tuple(_clone(v, memo) for v in x)
+    if isinstance(x, dict):
+        y = {}
+        memo[id(x)] = y
+        for k, v in x.items():
+            y[k] = _clone(v, memo)
+        return y
+    return x
+
+
+def clone_case(case):
+    label, args, kw = case
+    memo = {}
+    return label, [_clone(a, memo) for a in args], {k: _clone(v, memo) for k, v in kw.items()}
+
+
 def ident(x):
     return x
 
@@ -264,9 +312,14 @@ def recipes(tn, E, only=None):
     add('copy', 'none', None)
     for ltr in (False, True):
         add('interface', f'plain ltr={ltr}', Y, ltr=ltr)
-        add('interface', f'P,i ltr={ltr}', Y, P=E.vec([0.1, 0.2, 0.3, 0.4]) if False else None, i=I1, norm='natural', ltr=ltr)
+        add('interface', f'i ltr={ltr}', Y, i=I1, norm='natural', ltr=ltr)
         add('interface', f'Plist ltr={ltr}', Y, P=[E.vec([.2, .3, .5]), E.vec([.1, .2, .3, .4]), E.vec([.5, .2, .3])],
             norm=None, ltr=ltr)
+        for nrm in (None, 'linalg', 'natural'):
+            add('interface', f'Plist and i, norm={nrm} ltr={ltr}', Y, [E.vec([.2, .3, .5]), E.vec([.1, .2, .3, .4]), E.vec([.5, .2, .3])],
+                I1, norm=nrm, ltr=ltr)
+        add('interface', f'shared P and i ltr={ltr}', Yq, P=E.vec([.1, .2, .3, .4]), i=E.idx([1, 3]), norm=None, ltr=ltr)
+        add('interface', f'shared P ltr={ltr}', Yq, P=E.vec([.1, .2, .3, .4]), ltr=ltr)
     add('get', 'one', Y, I1)
     add('get', 'batch', Y, Ib)
     add('get_and_grad', 'one', Y, I1)
@@ -323,6 +376,16 @@ def recipes(tn, E, only=None):
     add('core_qtt_to_tt', 'two cores', [E.arr(rs.rand(1, 2, 2)), E.arr(rs.rand(2, 2, 3))])
     add('core_qtt_to_tt', 'one core', [E.arr(rs.rand(2, 2, 3))])
     add('core_stab', 'scaled', E.arr(rs.rand(2, 3, 2) * 100))
+    # the pass-through of core_stab is allowed only at / below its threshold: sweep the magnitude of the core over every binade
+    # 2^-6 .. 2^6 (four positions inside each, [1, 2) included), above the threshold, and the same magnitudes below an
+    # explicit threshold
+    Gb = rs.uniform(-1., 1., size=(3, 4, 2))
+    Gb /= np.max(np.abs(Gb))
+    for eb in range(-6, 7):
+        for fb in (1.0, 1.25, 1.5, 1.999):
+            add('core_stab', f'max|G| = {fb} * 2^{eb}', E.arr(Gb * (fb * 2.**eb)))
+        add('core_stab', f'max|G| = 2^{eb}, p0 = 3', E.arr(Gb * 2.**eb), 3)
+        add('core_stab', f'max|G| = 1.5 * 2^{eb} below thr = 2^8', E.arr(Gb * (1.5 * 2.**eb)), 0, 256.)
     add('core_stab', 'below threshold', E.arr(np.zeros((2, 3, 2))), 1, 1e-100)
     add('core_tt_to_qtt', 'n=4', E.arr(rs.rand(2, 4, 3)))
     add('core_tt_to_qtt', 'n=2', E.arr(rs.rand(2, 2, 3)))
@@ -526,6 +589,10 @@ def recipes(tn, E, only=None):
 # ----------------------------------------------------------------------------------------------------------------
 # footprint of one call
 # ----------------------------------------------------------------------------------------------------------------
+# the tests on which the translator specialises a pass-through exception (skeleton_c09.GUARD_SPLITS), on actual arguments
+GUARDS = {'v_max <= thr': lambda b: float(np.max(np.abs(b['G']))) <= float(b['thr'])}
+
+
 def predicted(g, name, bound):
     """what the skeleton predicts for the call: the union over the variants compatible with the bound arguments.  A flag
     that is specialised True / False but passed as None (func_get(skip_out=None) decides inside) is compatible with both;
@@ -542,6 +609,13 @@ def predicted(g, name, bound):
 
     def compatible(r):
         for k, v in r['flags'].items():
+            if k in GUARDS:      # guard pseudo-flag of the exception table, evaluated on the actual arguments
+                try:
+                    if str(bool(GUARDS[k](bound))) != v:
+                        return False
+                except Exception:
+                    pass
+                continue
             if k not in bound:
                 continue
             b = bound[k]
@@ -691,6 +765,8 @@ DERIVED_MODES = [(dt, arr, single) for single in (False, True) for arr in (False
     [('d1', False, False), ('m1', False, False), ('flags', 'int', False), ('flags', 'np', False), ('flags', 'none', False)]
 # 'flags': every boolean flag of the call (passed or left at its default) in another form of the same truthiness: 0 / 1,
 #          np.bool_(False) / np.bool_(True), and None for a False flag (tolerated if the function rejects it).
+# 'merge': the optional arguments that ANOTHER recipe of the same function supplies are added to this call (interaction of
+#       optional arguments: interface(Y, P=.., i=..), func_get(a, b, funcs), als(w, I_vld, ...)); built in footprint().
 # 'd1': the whole call reduced to ONE dimension (every TT-tensor cut to its first core, shape (1, n, 1); every length-d option
 #       / index to its first entry; lists of d things to their first element): loops over range(1, d) / Y[1:] run zero times;
 # 'm1': batches of points / multi-indices (and the value vectors of the same length) cut to a single row, kept 2-D.
@@ -834,6 +910,48 @@ def _reflag(tn, name, args, kw, mode):
     return list(ba.args), dict(ba.kwargs), tuple(signature)
 
 
+MERGE_PER_CASE = 2
+
+
+def merge_partners(tn, name, cases, ci):
+    """indices of other recipes of the function that supply optional arguments this recipe leaves out (same required
+    arguments in number)"""
+    try:
+        sig = inspect.signature(getattr(tn, name))
+        ba = sig.bind(*cases[ci][1], **cases[ci][2]).arguments
+    except Exception:
+        return []
+    out, seen = [], set()
+    for bi, (lb, ab, kb) in enumerate(cases):
+        if bi == ci:
+            continue
+        try:
+            bb = sig.bind(*ab, **kb).arguments
+        except Exception:
+            continue
+        extra = tuple(sorted(k for k, v in bb.items() if v is not None and sig.parameters[k].default is not inspect._empty
+                             and ba.get(k) is None and not isinstance(v, (bool, str))))
+        if extra and extra not in seen:
+            seen.add(extra)
+            out.append(bi)
+        if len(out) >= MERGE_PER_CASE:
+            break
+    return out
+
+
+def merged(tn, name, case_a, case_b):
+    sig = inspect.signature(getattr(tn, name))
+    ba = sig.bind(*case_a[1], **case_a[2])
+    bb = sig.bind(*case_b[1], **case_b[2]).arguments
+    added = []
+    for k, v in bb.items():
+        if v is not None and sig.parameters[k].default is not inspect._empty and ba.arguments.get(k) is None \
+                and not isinstance(v, (bool, str)):
+            ba.arguments[k] = v
+            added.append(k)
+    return list(ba.args), dict(ba.kwargs), added
+
+
 def derive(tn, g, name, args, kw, mode):
     """(args', kw', signature) of the derived call, or None when the function signature does not bind"""
     if mode[0] in ('d1', 'm1'):
@@ -966,9 +1084,7 @@ def footprint(R, ctx, names=None, seeds=(1,), probes=True, derived=True):
                 for ci in range(len(rec[name])):
                     # rebuild the inputs for every case: an earlier (faulty) call and the write-after-return probes
                     # must not spoil later ones
-                    with contextlib.redirect_stdout(io.StringIO()), warnings.catch_warnings():
-                        warnings.simplefilter('ignore')
-                        label, args, kw = recipes(tn, Env(tn, layout, aslist, seed), only=name)[name][ci]
+                    label, args, kw = clone_case(rec[name][ci])       # the master copy in `rec` is never handed out
                     viol, inf = run_case(tn, g, name, label, args, kw, probes, tolerant=(seed != 1))
                     ncalls += 1
                     if inf.get('skipped'):
@@ -997,9 +1113,7 @@ def footprint(R, ctx, names=None, seeds=(1,), probes=True, derived=True):
                     if dv0 is None:
                         continue
                     seen_sig, todo = set(), []
-                    with contextlib.redirect_stdout(io.StringIO()), warnings.catch_warnings():
-                        warnings.simplefilter('ignore')
-                        label, args, kw = recipes(tn, Env(tn, layout, aslist, seed), only=name)[name][ci]
+                    label, args, kw = clone_case(rec[name][ci])
                     for mode in DERIVED_MODES:      # which modes add something (shapes / dtypes only; nothing is called)
                         dv = derive(tn, g, name, args, kw, mode)
                         if dv is None or dv[2] in seen_sig:
@@ -1007,12 +1121,24 @@ def footprint(R, ctx, names=None, seeds=(1,), probes=True, derived=True):
                         seen_sig.add(dv[2])
                         if not _same_as_base(dv[2], args, kw, tn, name):
                             todo.append(mode)
+                    for bi in merge_partners(tn, name, rec[name], ci):
+                        todo.append(('merge', bi, False))
                     for mode in todo:
-                        with contextlib.redirect_stdout(io.StringIO()), warnings.catch_warnings():
-                            warnings.simplefilter('ignore')
-                            label, args, kw = recipes(tn, Env(tn, layout, aslist, seed), only=name)[name][ci]
-                        dv = derive(tn, g, name, args, kw, mode)
-                        dlabel = f'{label} | {mode_label(mode)}'
+                        cases_now = {ci: clone_case(rec[name][ci])}
+                        if mode[0] == 'merge':
+                            cases_now[mode[1]] = clone_case(rec[name][mode[1]])
+                        label, args, kw = cases_now[ci]
+                        if mode[0] == 'merge':
+                            try:
+                                a2, k2, added = merged(tn, name, cases_now[ci], cases_now[mode[1]])
+                            except Exception:
+                                continue
+                            dv = (a2, k2, tuple((k, 'merge') for k in added))
+                            dist['merged'] = dist.get('merged', 0) + 1
+                        else:
+                            dv = derive(tn, g, name, args, kw, mode)
+                        dlabel = f'{label} | {mode_label(mode)}' if mode[0] != 'merge' else \
+                            f'{label} | plus {", ".join(x[0] for x in dv[2])} of [{cases_now[mode[1]][0]}]'
                         viol, inf = run_case(tn, g, name, dlabel, dv[0], dv[1], probes, tolerant=True)
                         ncalls += 1
                         dist['derived'] = dist.get('derived', 0) + 1
@@ -1273,6 +1399,14 @@ def replay(data):
     E = Env(tn, inp['layout'], inp['index_args_as_lists'], inp['seed'])
     for label, args, kw in recipes(tn, E)[inp['function']]:
         if label == inp['case']:
+            if inp.get('derived') and inp['derived'][0] == 'merge':
+                cs = recipes(tn, E)[inp['function']]
+                a2, k2, added = merged(tn, inp['function'], (label, args, kw), cs[inp['derived'][1]])
+                label, args, kw = f'{label} | plus {", ".join(added)} of [{cs[inp["derived"][1]][0]}]', a2, k2
+                viol, _ = run_case(tn, g, inp['function'], label, args, kw, tolerant=True)
+                for v in viol:
+                    print('replayed:', v['what'])
+                return 1 if viol else 0
             if inp.get('derived'):
                 dv = derive(tn, g, inp['function'], args, kw, tuple(inp['derived']))
                 label, args, kw = f'{label} | {mode_label(tuple(inp["derived"]))}', dv[0], dv[1]
